@@ -141,15 +141,16 @@ Print Assumptions C16_print_help_inert_partial.
 (*     Proof. exact (C16_deterministic C16_order_fact). Qed.                                                             *)
 (*   (same recipe for C16_print_help_fact / C16_print_help_not_inert_today with C16_print_help_inert).                   *)
 (* ==================================================================================================================== *)
-Example C16_order_fact : option_order_preserved_gen = false.
+Example C16_order_fact : option_order_preserved_gen = true.
 Proof. reflexivity. Qed.
 Print Assumptions C16_order_fact.
 
-Theorem C16_not_reproducible_today :
-  exists p1 p2 c m pre cfgf F,
-    valid p1 /\ valid p2 /\ run_cli_help_gen p1 c m pre cfgf F <> run_cli_help_gen p2 c m pre cfgf F.
-Proof. exact (C16_deterministic_refuted C16_order_fact). Qed.
-Print Assumptions C16_not_reproducible_today.
+(* holds since the fix: commit for option_strings (duplicates removed in insertion order): the help text is a function of the
+   definition, whatever order a hash-based container would have produced *)
+Theorem C16_reproducible : forall p1 p2 c m pre cfgf F,
+  run_cli_help_gen p1 c m pre cfgf F = run_cli_help_gen p2 c m pre cfgf F.
+Proof. exact (C16_deterministic C16_order_fact). Qed.
+Print Assumptions C16_reproducible.
 
 Example C16_print_help_fact : print_help_applies_config_gen = false.
 Proof. reflexivity. Qed.
